@@ -124,6 +124,19 @@ CLAIMED = {
         "Trusted: TLC, driver, ndjson. The implementation-shaped PlusCal model of the hash/probe algorithm "
         "(arbitrary hash functions) is a growth item.",
         "DESIGN.md 3.4, 5/C06"),
+    "C17": (
+        "TLC: allocator contract on function-shaped control-flow models (all paths x fault plans) + TLC trace validation of every malloc/calloc/free under enumerated fault plans",
+        "H3Alloc.tla states the allocator contract (live set, fault plan, balanced release, no double/foreign free, "
+        "E_MEMORY_ALLOC reported, results equal to the default-allocator run). MC_Alloc.tla transcribes the "
+        "allocation/release control flow of compactCells, gridDisk(Distances), areNeighborCells, polygonToCells and the "
+        "experimental polyfill iterators and TLC explores every path under every plan (never / i-th only / from the "
+        "i-th on); the pre-fix control flow is kept as a negative control that TLC must reject. The library is built "
+        "with -DH3_ALLOC_PREFIX=verif_; for ~300 (thorough ~1500) scenarios the driver runs the fault-free call and then "
+        "refuses the 1st, 2nd, ... last allocation (once / from there on); TLC validates every logged Alloc/Free/Return "
+        "against the contract (Trace_Alloc.tla).",
+        "Trusted: TLC, the logging shim, FNV digests for result identity. This check found the swallowed inner-gridDisk "
+        "failure in areNeighborCells / polygonToCells (fixed in /repo commit 0aae22c7, see known_findings.json).",
+        "DESIGN.md 3.10, 5/C17"),
 }
 
 PENDING_REASON = "check not built yet in this round (work in progress; see DESIGN.md section 10 for the order of work)"
@@ -143,7 +156,7 @@ def main():
                 evidence_file="/verif/evidence/%s.json" % p,
                 replay_cmd_template="python3 tools/check.py --replay {path}",
                 engine="tlc",
-                level_claimed=dict(category="model_checking", text=text, design_ref=ref),
+                level_claimed=dict(category=CATEGORY.get(p, "model_checking"), text=text, design_ref=ref),
                 level_note=note,
                 technique=tech))
         else:
@@ -173,6 +186,7 @@ def main():
 
 
 NA = {}
+CATEGORY = {}
 
 if __name__ == "__main__":
     main()
